@@ -303,7 +303,9 @@ def build_all(timeout=3000):
     with coq_lock():
         st = gen.regenerate()
         ensure_project()
-        rc, out, err, dt = run(["make", "-j16"], timeout=timeout, cwd=COQ)
+        # -k: one property's broken proof must not prevent the others from being built;
+        # every check rebuilds and judges its own Props/Cxx.vo anyway
+        rc, out, err, dt = run(["make", "-k", "-j16"], timeout=timeout, cwd=COQ)
     return rc, out, err, st
 
 
